@@ -24,6 +24,8 @@ import (
 	"time"
 
 	"github.com/lightningnetwork/lnd/chanstate"
+	"github.com/lightningnetwork/lnd/clock"
+	"github.com/lightningnetwork/lnd/htlcswitch/hop"
 	"github.com/lightningnetwork/lnd/kvdb"
 	"github.com/lightningnetwork/lnd/lnwire"
 )
@@ -101,6 +103,13 @@ type c07 struct {
 	sw     *Switch
 	env    c07Env
 	nlines int
+
+	// mailbox stream
+	mo      *mailOrchestrator
+	uids    map[*htlcPacket]int
+	nextUID int
+	up      map[int]bool
+	inbox   map[int][]*htlcPacket // received by the "link", not yet acked
 }
 
 func (c *c07) pf(format string, a ...interface{}) {
@@ -1185,5 +1194,420 @@ func TestVerifC07(t *testing.T) {
 	}
 	for i := 0; i < races && time.Since(startT) < budget; i++ {
 		c.raceCase()
+	}
+}
+
+// ======================================================================
+// mailbox stream: the real mailOrchestrator + memoryMailBox (+ the real
+// Switch.handlePacketSettle / handlePacketFail feeding it from the real
+// circuit map). The harness plays the links: while a link is "up" it receives
+// whatever the mailbox courier offers; a link start is GetOrCreateMailBox,
+// BindLiveShortChanID, ResetPackets, receive.
+
+var c07Sids = []int{1, 2}
+
+func c07Cid(sid int) lnwire.ChannelID { return lnwire.ChannelID{byte(sid), 0xc7} }
+
+func (c *c07) newOrch() {
+	if c.mo != nil {
+		c.mo.Stop()
+	}
+	c.mo = newMailOrchestrator(&mailOrchConfig{
+		forwardPackets: func(<-chan struct{}, ...*htlcPacket) error { return nil },
+		clock:          clock.NewDefaultClock(),
+		expiry:         time.Hour,
+		failMailboxUpdate: func(_, _ lnwire.ShortChannelID) lnwire.FailureMessage {
+			return &lnwire.FailTemporaryNodeFailure{}
+		},
+	})
+	c.up = map[int]bool{}
+	c.inbox = map[int][]*htlcPacket{}
+	if c.sw != nil {
+		c.sw.mailOrchestrator = c.mo
+	}
+}
+
+func (c *c07) box(sid int) *memoryMailBox {
+	c.mo.mu.RLock()
+	defer c.mo.mu.RUnlock()
+	mb, ok := c.mo.mailboxes[c07Cid(sid)]
+	if !ok {
+		return nil
+	}
+	return mb.(*memoryMailBox)
+}
+
+func (c *c07) newPkt(in, out CircuitKey, typ int) *htlcPacket {
+	var msg lnwire.Message
+	switch typ {
+	case 0:
+		msg = &lnwire.UpdateFulfillHTLC{}
+	case 1:
+		msg = &lnwire.UpdateFailHTLC{}
+	default:
+		msg = &lnwire.UpdateAddHTLC{}
+	}
+	pkt := &htlcPacket{
+		incomingChanID: in.ChanID, incomingHTLCID: in.HtlcID,
+		outgoingChanID: out.ChanID, outgoingHTLCID: out.HtlcID,
+		htlc: msg,
+	}
+	c.nextUID++
+	c.uids[pkt] = c.nextUID
+	return pkt
+}
+
+func c07IsHead(mb *memoryMailBox, pkt *htlcPacket) bool {
+	mb.pktCond.L.Lock()
+	defer mb.pktCond.L.Unlock()
+	if mb.repHead != nil && mb.repHead.Value.(*htlcPacket) == pkt {
+		return true
+	}
+	if mb.addHead != nil && mb.addHead.Value.(*pktWithExpiry).pkt == pkt {
+		return true
+	}
+	return false
+}
+
+// drain plays the running link: receive until the mailbox has nothing at its heads.
+func (c *c07) drain(sid int) []int {
+	var got []int
+	if !c.up[sid] {
+		return got
+	}
+	mb := c.box(sid)
+	if mb == nil {
+		return got
+	}
+	for {
+		mb.pktCond.L.Lock()
+		pending := mb.repHead != nil || mb.addHead != nil
+		mb.pktCond.L.Unlock()
+		if !pending {
+			return got
+		}
+		select {
+		case pkt := <-mb.PacketOutBox():
+			got = append(got, c.uids[pkt])
+			c.inbox[sid] = append(c.inbox[sid], pkt)
+			// the courier advances its head right after the hand-over
+			for i := 0; i < 200000 && c07IsHead(mb, pkt); i++ {
+				time.Sleep(10 * time.Microsecond)
+			}
+		case <-time.After(5 * time.Second):
+			got = append(got, -1)
+			return got
+		}
+	}
+}
+
+func c07Ints(l []int) string {
+	if len(l) == 0 {
+		return "-"
+	}
+	s := make([]string, len(l))
+	for i, v := range l {
+		s[i] = strconv.Itoa(v)
+	}
+	return strings.Join(s, ".")
+}
+
+// drainAll returns "sid:uids;..." for every link that received something.
+func (c *c07) drainAll() string {
+	var parts []string
+	for _, sid := range c07Sids {
+		if g := c.drain(sid); len(g) > 0 {
+			parts = append(parts, fmt.Sprintf("%d:%s", sid, c07Ints(g)))
+		}
+	}
+	if len(parts) == 0 {
+		return "-"
+	}
+	return strings.Join(parts, ";")
+}
+
+func (c *c07) msnap() {
+	var parts []string
+	for _, sid := range c07Sids {
+		c.mo.mu.RLock()
+		_, live := c.mo.liveIndex[lnwire.NewShortChanIDFromInt(uint64(sid))]
+		var un []int
+		for _, p := range c.mo.unclaimedPackets[lnwire.NewShortChanIDFromInt(uint64(sid))] {
+			un = append(un, c.uids[p])
+		}
+		c.mo.mu.RUnlock()
+		mb := c.box(sid)
+		var rd, rt, ad, at []int
+		if mb != nil {
+			mb.pktCond.L.Lock()
+			done := true
+			for e := mb.repPkts.Front(); e != nil; e = e.Next() {
+				if e == mb.repHead {
+					done = false
+				}
+				u := c.uids[e.Value.(*htlcPacket)]
+				if done {
+					rd = append(rd, u)
+				} else {
+					rt = append(rt, u)
+				}
+			}
+			done = true
+			for e := mb.addPkts.Front(); e != nil; e = e.Next() {
+				if e == mb.addHead {
+					done = false
+				}
+				u := c.uids[e.Value.(*pktWithExpiry).pkt]
+				if done {
+					ad = append(ad, u)
+				} else {
+					at = append(at, u)
+				}
+			}
+			// the per-key indexes must mirror the queues
+			if len(mb.repIndex) != mb.repPkts.Len() || len(mb.addIndex) != mb.addPkts.Len() {
+				rd = append(rd, -2)
+			}
+			mb.pktCond.L.Unlock()
+		}
+		parts = append(parts, fmt.Sprintf("%d/%d/%d/%d/U=%s/RD=%s/RT=%s/AD=%s/AT=%s",
+			sid, c07b(live), c07b(mb != nil), c07b(c.up[sid]),
+			c07Ints(un), c07Ints(rd), c07Ints(rt), c07Ints(ad), c07Ints(at)))
+	}
+	c.pf("msnap %s", strings.Join(parts, " "))
+}
+
+func (c *c07) sidOf(n int) lnwire.ShortChannelID {
+	return lnwire.NewShortChanIDFromInt(uint64(n))
+}
+
+func (c *c07) mDeliver(sid int, in CircuitKey, typ int) {
+	pkt := c.newPkt(in, c.randKey(), typ)
+	res := ""
+	func() {
+		defer func() {
+			if r := recover(); r != nil {
+				res = "panic"
+			}
+		}()
+		err := c.mo.Deliver(c.sidOf(sid), pkt)
+		switch {
+		case err == nil:
+			res = "ok"
+		case errors.Is(err, ErrPacketAlreadyExists):
+			res = "exists"
+		default:
+			res = "err"
+		}
+	}()
+	c.pf("mdeliver %d %d %s %d => %s recv=%s", sid, c.uids[pkt], c07ks(in), typ, res, c.drainAll())
+	c.msnap()
+}
+
+func (c *c07) mGetBox(sid int) {
+	c.mo.GetOrCreateMailBox(c07Cid(sid), c.sidOf(sid))
+	c.pf("mgetbox %d => ok recv=%s", sid, c.drainAll())
+	c.msnap()
+}
+
+func (c *c07) mLinkUp(sid int) {
+	mb := c.mo.GetOrCreateMailBox(c07Cid(sid), c.sidOf(sid))
+	c.mo.BindLiveShortChanID(mb, c07Cid(sid), c.sidOf(sid))
+	res := "ok"
+	if err := mb.ResetPackets(); err != nil {
+		res = "err"
+	}
+	c.up[sid] = true
+	c.pf("mlinkup %d => %s recv=%s", sid, res, c.drainAll())
+	c.msnap()
+}
+
+func (c *c07) mLinkDown(sid int) {
+	c.up[sid] = false
+	c.pf("mlinkdown %d => ok recv=-", sid)
+	c.msnap()
+}
+
+func (c *c07) mReset(sid int) {
+	mb := c.box(sid)
+	if mb == nil {
+		return
+	}
+	res := "ok"
+	if err := mb.ResetPackets(); err != nil {
+		res = "err"
+	}
+	c.pf("mreset %d => %s recv=%s", sid, res, c.drainAll())
+	c.msnap()
+}
+
+func (c *c07) mAck(sid int, in CircuitKey) {
+	mb := c.box(sid)
+	if mb == nil {
+		return
+	}
+	had := mb.HasPacket(in)
+	ok := mb.AckPacket(in)
+	if ok {
+		// forget it in the harness' view of the link
+		l := c.inbox[sid][:0]
+		for _, p := range c.inbox[sid] {
+			if !(p.inKey() == in) {
+				l = append(l, p)
+			}
+		}
+		c.inbox[sid] = l
+	}
+	c.pf("mack %d %s => %d has=%d recv=%s", sid, c07ks(in), c07b(ok), c07b(had), c.drainAll())
+	c.msnap()
+}
+
+// mRelay pushes a settle/fail from an outgoing link through the real
+// Switch.handlePacketSettle / handlePacketFail: circuit map arbitration, then
+// mailOrchestrator.Deliver to the incoming link's mailbox.
+func (c *c07) mRelay(o CircuitKey, settle bool) {
+	// locally initiated payments take the networkResult path, not a mailbox
+	if pc := c.cm.LookupOpenCircuit(o); pc != nil && pc.Incoming.ChanID == hop.Source {
+		return
+	}
+	typ := 1
+	if settle {
+		typ = 0
+	}
+	pkt := c.newPkt(CircuitKey{}, o, typ)
+	res, in := "", "-"
+	func() {
+		defer func() {
+			if r := recover(); r != nil {
+				res = "panic"
+			}
+		}()
+		var err error
+		if settle {
+			err = c.sw.handlePacketSettle(pkt)
+		} else {
+			err = c.sw.handlePacketFail(pkt, pkt.htlc.(*lnwire.UpdateFailHTLC))
+		}
+		switch {
+		case err == nil:
+			res = "ok"
+		case errors.Is(err, ErrPacketAlreadyExists):
+			res = "exists"
+		case errors.Is(err, ErrCircuitClosing):
+			res = "closing"
+		default:
+			res = "err"
+		}
+		if pkt.circuit != nil {
+			in = c07ks(pkt.inKey())
+		}
+	}()
+	c.pf("mrelay %s settle=%d %d => %s in=%s recv=%s", c07ks(o), c07b(settle), c.uids[pkt], res, in, c.drainAll())
+	c.snap()
+	c.msnap()
+}
+
+func (c *c07) mRestart() {
+	c.genRestart(true)
+	c.newOrch()
+	c.pf("mrestart => ok")
+	c.msnap()
+}
+
+func (c *c07) runMboxCase(nops int) {
+	c.startCase("mbox", false)
+	c.uids = map[*htlcPacket]int{}
+	c.nextUID = 0
+	c.newOrch()
+	c.snap()
+	c.msnap()
+	pickSid := func() int { return c07Sids[c.rng.Intn(len(c07Sids))] }
+	for i := 0; i < nops; i++ {
+		switch r := c.rng.Intn(100); {
+		case r < 16:
+			c.genCommit(0)
+		case r < 28:
+			c.genOpen(0, true)
+		case r < 44:
+			o := c.randKey()
+			if c.p(85) {
+				o = c.pickKey(c.openedKeys())
+			}
+			c.mRelay(o, c.p(50))
+		case r < 52:
+			typ := 2
+			switch t := c.rng.Intn(100); {
+			case t < 40:
+				typ = 0
+			case t < 60:
+				typ = 1
+			}
+			c.mDeliver(pickSid(), c.randKey(), typ)
+		case r < 66:
+			c.mLinkUp(pickSid())
+		case r < 70:
+			c.mLinkDown(pickSid())
+		case r < 74:
+			c.mReset(pickSid())
+		case r < 76:
+			c.mGetBox(pickSid())
+		case r < 90:
+			// the link processes a response it received: tear the circuit
+			// down, then ack the packet out of the mailbox
+			sid := pickSid()
+			in := c.randKey()
+			if l := c.inbox[sid]; len(l) > 0 && c.p(85) {
+				in = l[c.rng.Intn(len(l))].inKey()
+				if c.p(70) {
+					c.opDelete([]CircuitKey{in}, false)
+				}
+			}
+			c.mAck(sid, in)
+		case r < 95:
+			c.genDelete(0)
+		default:
+			c.mRestart()
+		}
+	}
+	c.mo.Stop()
+	c.mo = nil
+	c.endCase()
+}
+
+func TestVerifC07Mailbox(t *testing.T) {
+	out := os.Getenv("VERIF_OUT")
+	if out == "" {
+		t.Skip("VERIF_OUT not set")
+	}
+	seed, _ := strconv.ParseInt(os.Getenv("VERIF_SEED"), 10, 64)
+	tier := os.Getenv("VERIF_TIER")
+	f, err := os.Create(out)
+	if err != nil {
+		t.Fatal(err)
+	}
+	defer f.Close()
+	w := bufio.NewWriterSize(f, 1<<20)
+	defer w.Flush()
+
+	dir := ""
+	if st, err := os.Stat("/dev/shm"); err == nil && st.IsDir() {
+		dir, _ = os.MkdirTemp("/dev/shm", "c07m_")
+	}
+	if dir == "" {
+		dir = t.TempDir()
+	} else {
+		defer os.RemoveAll(dir)
+	}
+	c := &c07{t: t, w: w, rng: rand.New(rand.NewSource(seed*104729 + 11)), dir: dir}
+	c.pf("FACT chans=%d ids=%d source=%d", c07Chans, c07Ids, 0)
+	cases := 700
+	budget := 60 * time.Second
+	if tier == "thorough" {
+		cases = 15000
+		budget = 10 * time.Minute
+	}
+	startT := time.Now()
+	for i := 0; i < cases && time.Since(startT) < budget; i++ {
+		c.runMboxCase(10 + c.rng.Intn(40))
 	}
 }
